@@ -78,6 +78,7 @@ type fn struct {
 }
 
 type tr struct {
+	lenVar string // index mode: the []interface{} variable whose len is the parameter `length`
 	soft   bool
 	fns    map[string]*fn
 	fields map[string]kind // fields of sliceParam
@@ -220,6 +221,11 @@ func (t *tr) expr(e ast.Expr, env map[string]kind) (string, kind) {
 		if !ok {
 			die(what, "call of something that is not a plain function")
 		}
+		if id.Name == "len" && t.lenVar != "" && len(x.Args) == 1 {
+			if a, ok := x.Args[0].(*ast.Ident); ok && a.Name == t.lenVar {
+				return "length", kInt
+			}
+		}
 		f, ok := t.fns[id.Name]
 		if !ok || len(f.results) != 1 {
 			die(what, "call of %s (only single-result functions translated in this run may be called)", id.Name)
@@ -343,6 +349,30 @@ func (t *tr) stmts(list []ast.Stmt, rest [][]ast.Stmt, env map[string]kind, ind 
 	case *ast.BlockStmt:
 		return t.stmts(x.List, append([][]ast.Stmt{tail}, rest...), env, ind)
 	case *ast.ReturnStmt:
+		if t.lenVar != "" {
+			// index mode: `return X[e], nil` selects position e; `return nil, nil` is null
+			if len(x.Results) != 2 {
+				die(what, "return with %d values", len(x.Results))
+			}
+			if id, ok := x.Results[1].(*ast.Ident); !ok || id.Name != "nil" {
+				die(what, "a return with an error inside the index clause")
+			}
+			if id, ok := x.Results[0].(*ast.Ident); ok && id.Name == "nil" {
+				return ind + "none\n"
+			}
+			ix, ok := x.Results[0].(*ast.IndexExpr)
+			if !ok {
+				die(what, "the returned value is neither nil nor an element of the array")
+			}
+			if id, ok := ix.X.(*ast.Ident); !ok || id.Name != t.lenVar {
+				die(what, "the returned element is not taken from the array")
+			}
+			v, k := t.expr(ix.Index, env)
+			if k != kInt {
+				die(what, "subscript is not an integer")
+			}
+			return ind + "some " + v + "\n"
+		}
 		res := t.cur.results
 		if len(x.Results) != len(res) {
 			die(what, "return with %d values", len(x.Results))
@@ -390,6 +420,102 @@ func (t *tr) stmts(list []ast.Stmt, rest [][]ast.Stmt, env map[string]kind, ind 
 	return ""
 }
 
+
+
+// ---- the index clause of Execute (interpreter.go): `case ASTIndex:` first `if X, ok := value.([]interface{}); ok { … }` ----
+
+func (t *tr) tryIndex(dir string) (out string, why string) {
+	defer func() {
+		if r := recover(); r != nil {
+			if m, ok := r.(refusal); ok {
+				out, why = "", string(m)
+				return
+			}
+			panic(r)
+		}
+	}()
+	t.soft = true
+	defer func() { t.soft = false; t.lenVar = "" }()
+	no := func(format string, a ...interface{}) { panic(refusal(fmt.Sprintf(format, a...))) }
+	fset := token.NewFileSet()
+	file, err := parser.ParseFile(fset, filepath.Join(dir, "interpreter.go"), nil, 0)
+	if err != nil {
+		no("interpreter.go: %v", err)
+	}
+	var clause *ast.CaseClause
+	ast.Inspect(file, func(n ast.Node) bool {
+		cc, ok := n.(*ast.CaseClause)
+		if ok && len(cc.List) == 1 {
+			if id, ok := cc.List[0].(*ast.Ident); ok && id.Name == "ASTIndex" {
+				if clause != nil {
+					no("two clauses `case ASTIndex:`")
+				}
+				clause = cc
+			}
+		}
+		return true
+	})
+	if clause == nil || len(clause.Body) == 0 {
+		no("no clause `case ASTIndex:` in interpreter.go")
+	}
+	ifs, ok := clause.Body[0].(*ast.IfStmt)
+	if !ok || ifs.Init == nil {
+		no("the index clause does not start with `if X, ok := value.([]interface{}); ok`")
+	}
+	in, ok := ifs.Init.(*ast.AssignStmt)
+	if !ok || in.Tok != token.DEFINE || len(in.Lhs) != 2 || len(in.Rhs) != 1 {
+		no("the index clause does not start with a checked type assertion")
+	}
+	ta, ok := in.Rhs[0].(*ast.TypeAssertExpr)
+	if !ok {
+		no("the index clause does not start with a type assertion")
+	}
+	if at, ok := ta.Type.(*ast.ArrayType); !ok || at.Len != nil {
+		no("the asserted type is not a slice")
+	} else if it, ok := at.Elt.(*ast.InterfaceType); !ok || it.Methods == nil || len(it.Methods.List) != 0 {
+		no("the asserted type is not []interface{}")
+	}
+	arr, okName := in.Lhs[0].(*ast.Ident), in.Lhs[1].(*ast.Ident)
+	if c, ok := ifs.Cond.(*ast.Ident); !ok || c.Name != okName.Name {
+		no("the condition is not the ok of the assertion")
+	}
+	body := ifs.Body.List
+	if len(body) < 2 {
+		no("the index clause is too short")
+	}
+	a0, ok := body[0].(*ast.AssignStmt)
+	if !ok || a0.Tok != token.DEFINE || len(a0.Lhs) != 1 || len(a0.Rhs) != 1 {
+		no("the index is not read with `i := node.value.(int)`")
+	}
+	ia, ok := a0.Rhs[0].(*ast.TypeAssertExpr)
+	if !ok {
+		no("the index is not read with a type assertion")
+	}
+	if id, ok := ia.Type.(*ast.Ident); !ok || id.Name != "int" {
+		no("the index is not asserted to int")
+	}
+	iName := a0.Lhs[0].(*ast.Ident).Name
+	t.cur = &fn{name: "index clause"}
+	t.lenVar = arr.Name
+	env := map[string]kind{iName: kInt}
+	text := t.stmts(body[1:], nil, env, "  ")
+	return fmt.Sprintf("def indexSel (length : Int) (%s : Int) : Option Int :=\n%s\n", leanName(iName), text), ""
+}
+
+const fallbackIndex = `def indexSel (length : Int) (index : Int) : Option Int :=
+  if (decide (index < (0 : Int))) = true then
+    let index := (wrap64 (index + length))
+    if ((decide (index < length)) && (decide (index ≥ (0 : Int)))) = true then
+      some index
+    else
+      none
+  else
+    if ((decide (index < length)) && (decide (index ≥ (0 : Int)))) = true then
+      some index
+    else
+      none
+
+`
 
 // ---- the pattern translation of `slice` ----
 
@@ -756,6 +882,15 @@ func main() {
 	} else {
 		b.WriteString("/-- the two loops of `slice` below are the pattern translation of the Go source -/\ndef loopsTranslated : Bool := true\n\n")
 		b.WriteString(loops)
+	}
+	idx, why2 := t.tryIndex(dir)
+	if idx == "" {
+		fmt.Fprintf(&b, "/-- the index clause of Execute was not in the shape the translator reads (%s): hand-written -/\ndef indexTranslated : Bool := false\n\n", strings.Replace(why2, "-/", "- /", -1))
+		b.WriteString(fallbackIndex)
+		fmt.Fprintf(os.Stderr, "gotolean: index clause not translated: %s\n", why2)
+	} else {
+		b.WriteString("/-- interpreter.go, `case ASTIndex:` on a `[]interface{}` of length `length`: the selected position, `none` = null -/\ndef indexTranslated : Bool := true\n\n")
+		b.WriteString(idx)
 	}
 	b.WriteString("end Jmes.GenSlice\n")
 	if err := ioutil.WriteFile(outPath, []byte(b.String()), 0o644); err != nil {
